@@ -393,6 +393,20 @@ var clauseSources = func() []clauseSrc {
 			})
 		}
 	}
+	// every prefix of a few multi-line samples (tab-indented, space-indented, CRLF, multi-byte): the input ends
+	// in the middle of every construct, and the error is rendered with FriendlyErrorMessage
+	samples := map[string]string{
+		"tabs": "func total(items, scale=2) {\n\tsum := 0\n\tfor i, v := range items {\n\t\tif v > 1 {\n\t\t\tsum += v * scale\n\t\t}\n\t}\n\treturn [sum,\n\t\tlen(items),\n\t]\n}\nm := {\n\ta: 1,\n\t\"b\": total([1, 2,\n\t\t3]),\n}\n\tprint(m[\"b\"],\n\t\t'v={m.a}',\n\t)\nswitch m.a {\n\tcase 1,\n\t\t2:\n\t\tm.a++\n\tdefault:\n}\n\tm | keys\n",
+		"crlf": "x := [1,\r\n\t2,\r\n\t3]\r\ny := {\"k\": x,\r\n\t\"日本\": 'é{x[0]}',\r\n}\r\nfunc f(a,\r\n\tb=1) {\r\n\treturn a +\r\n\t\tb\r\n}\r\nf(1,\r\n\t2)\r\n",
+	}
+	samples["spaces"] = strings.ReplaceAll(samples["tabs"], "\t", "    ")
+	samples["mixed"] = strings.ReplaceAll(samples["tabs"], "\n\t", "\n \t ")
+	for _, name := range []string{"tabs", "crlf", "spaces", "mixed"} {
+		text := samples[name]
+		for cut := 0; cut <= len(text); cut++ {
+			out = append(out, clauseSrc{Src: text[:cut], Class: fmt.Sprintf("clauses:cut:%s:%d", name, cut)})
+		}
+	}
 	return out
 }()
 
